@@ -292,6 +292,35 @@ def classify(exc, frames, runs):
     return flags, True
 
 
+def call_step(net, st, pick):
+    """one pipeflow call of a scenario on the live net (mutation applied before, undone after)"""
+    import numpy as np
+    import pandapipes as pp
+    from harness import c05_driver as D
+    from pandapipes.idx_node import PINIT
+    from pandapipes.idx_branch import MDOTINIT
+    opts, undo = apply_mutation(net, st["mut"], pick)
+    mode = "nonsense_mode" if st["mut"] == "bad_mode" else st["mode"]
+    kw = dict(mode=mode, nonlinear_method=st["method"], use_numba=False, **opts)
+    if mode == "heat" and "_pit" in net and net.get("converged", False):
+        try:
+            kw["sol_vec"] = np.concatenate([net["_pit"]["node"][:, PINIT], net["_pit"]["branch"][:, MDOTINIT]])
+        except Exception:  # noqa: BLE001
+            pass
+    exc, frames = None, []
+    with D.Recorder() as rec:
+        try:
+            pp.pipeflow(net, **kw)
+        except Exception as e:  # noqa: BLE001
+            exc, frames = e, D.frames_of(e)
+    for u in reversed(undo):
+        try:
+            u()
+        except Exception:  # noqa: BLE001
+            pass
+    return mode, kw, exc, frames, rec.runs
+
+
 def run_scenarios(ctx, n_scen):
     from harness import gen, drive
     from harness import c05_driver as D
@@ -310,31 +339,12 @@ def run_scenarios(ctx, n_scen):
             continue
         calls, log, in_model_all, prev_tabs = [], [], True, "AllNaN"
         for si, st in enumerate(sc["steps"]):
-            opts, undo = apply_mutation(net, st["mut"], sc["pick"] + si)
-            mode = "nonsense_mode" if st["mut"] == "bad_mode" else st["mode"]
-            kw = dict(mode=mode, nonlinear_method=st["method"], use_numba=False, **opts)
-            if mode == "heat" and "_pit" in net and net.get("converged", False):
-                try:
-                    kw["sol_vec"] = np.concatenate([net["_pit"]["node"][:, PINIT], net["_pit"]["branch"][:, MDOTINIT]])
-                except Exception:  # noqa: BLE001
-                    pass
-            exc, frames = None, []
-            with D.Recorder() as rec:
-                try:
-                    import pandapipes as pp
-                    pp.pipeflow(net, **kw)
-                except Exception as e:  # noqa: BLE001
-                    exc, frames = e, D.frames_of(e)
-            for u in reversed(undo):
-                try:
-                    u()
-                except Exception:  # noqa: BLE001
-                    pass
+            mode, kw, exc, frames, runs = call_step(net, st, sc["pick"] + si)
             n_calls += 1
             cls = "ok" if exc is None else type(exc).__name__
             conv = bool(net.converged)
             allnan = drive.all_results_nan(net)
-            flags, in_model = classify(exc, frames, rec.runs)
+            flags, in_model = classify(exc, frames, runs)
             if mode == "heat" and "sol_vec" not in kw and exc is not None and "use_given_hydraulic_results" in frames and \
                     type(exc).__name__ not in ("UserWarning", "KeyError"):
                 in_model = False
@@ -342,7 +352,7 @@ def run_scenarios(ctx, n_scen):
             ctx.count("mutation:" + st["mut"])
             entry = {"step": st, "options": {k: v for k, v in kw.items() if k != "sol_vec"}, "outcome": cls,
                      "message": "" if exc is None else str(exc)[:160], "converged": conv, "all_results_nan": allnan,
-                     "frames": frames[-4:], "newton_runs": [(r["stage"], len(r["iters"]), r.get("conv")) for r in rec.runs]}
+                     "frames": frames[-4:], "newton_runs": [(r["stage"], len(r["iters"]), r.get("conv")) for r in runs]}
             log.append(entry)
             ctx.case({"scenario": sc["profile"], "step": st, "outcome": cls}, st["mut"] != "none" or si > 0)
             replay = {"kind": "pipeflow_sequence", "spec": sc["spec"], "steps": sc["steps"][:si + 1], "pick": sc["pick"],
@@ -355,13 +365,13 @@ def run_scenarios(ctx, n_scen):
                 if tb:
                     where = "%s:%s" % (os.path.basename(tb[-1].filename), tb[-1].name)
             if cls == "ok":
-                monitor_success(ctx, net, mode, rec.runs, replay)
+                monitor_success(ctx, net, mode, runs, replay)
             elif cls == "PipeflowNotConverged":
                 if conv or not allnan:
                     ctx.violation({"clause": "failed_run_leaves_no_results", "exception": cls, "raised_in": where},
                                   "after PipeflowNotConverged (%s) net.converged=%s and result tables %s"
                                   % (where, conv, "all NaN" if allnan else "hold numbers"), replay)
-                for r in rec.runs:
+                for r in runs:
                     if len(r["iters"]) > r["max_iter"]:
                         ctx.violation({"clause": "loop_terminates", "stage": r["stage"]},
                                       "%d iterations with a budget of %d" % (len(r["iters"]), r["max_iter"]), replay)
@@ -376,7 +386,7 @@ def run_scenarios(ctx, n_scen):
                 ctx.count("pipeflow:outside_model(exception inside a solve function)")
                 break
             by = {"hydraulics": [], "heat": [], "bidirectional": []}
-            for r in rec.runs:
+            for r in runs:
                 by.setdefault(r["stage"], []).append(r)
 
             def ri(lst):
@@ -386,7 +396,7 @@ def run_scenarios(ctx, n_scen):
                         for i, l in enumerate(lits)]
                 return lits
             hy, ht, bi = ri(by["hydraulics"]), ri(by["heat"]), ri(by["bidirectional"])
-            alpha0 = rec.runs[0]["alpha0"] if rec.runs else 1.0
+            alpha0 = runs[0]["alpha0"] if runs else 1.0
             env = ("{| pe_options_raise := %s; pe_setup_raise := %s; pe_unsupplied := %s; pe_conn_raise := %s; "
                    "pe_heat_unsupplied := %s; pe_extract_raise := %s; pe_reuse := false; pe_alpha0 := %s; "
                    "pe_hyd := (%s, %s); pe_heat := (%s, %s); pe_bid := %s |}"
@@ -468,7 +478,8 @@ def monitor_success(ctx, net, mode, runs, replay):
         sup = labels[act]
         thermal = mode in ("sequential", "bidirectional", "heat")
         rj = net.res_junction.loc[sup]
-        cols = ["p_bar"] + (["t_k"] if thermal else [])
+        hyd = mode != "heat"      # mode "heat" re-extracts thermal columns only
+        cols = (["p_bar"] if hyd else []) + (["t_k"] if thermal else [])
         for c in cols:
             badj = rj.index[~np.isfinite(rj[c].values.astype(float))].tolist()
             if badj:
@@ -482,14 +493,14 @@ def monitor_success(ctx, net, mode, runs, replay):
             blab = net["_pit"]["branch"][bf:bt, BR_ELEMENT_IDX].astype(np.int64)
             pin = [int(l) for l in np.unique(blab) if bool(np.all(bact[blab == l]))]
             rp = net.res_pipe.loc[pin]
-            for c in ["mdot_from_kg_per_s", "v_mean_m_per_s", "p_from_bar"] + (["t_from_k", "t_to_k"] if thermal else []):
+            for c in (["mdot_from_kg_per_s", "v_mean_m_per_s", "p_from_bar"] if hyd else []) + (["t_from_k", "t_to_k"] if thermal else []):
                 if c in rp:
                     badp = rp.index[~np.isfinite(rp[c].values.astype(float))].tolist()
                     if badp:
                         ctx.violation({"clause": "supplied_results_finite", "table": "res_pipe", "column": c},
                                       "returned normally but res_pipe.%s is not finite at supplied in-service pipes %r" % (c, badp[:5]), replay)
         for tbl in ("ext_grid", "circ_pump_pressure", "circ_pump_mass"):
-            if tbl in net and len(net[tbl]) and "res_" + tbl in net:
+            if hyd and tbl in net and len(net[tbl]) and "res_" + tbl in net:
                 ins = net[tbl].index[net[tbl].in_service.values.astype(bool)]
                 jcol = "junction" if tbl == "ext_grid" else "flow_junction"
                 ins = [i for i in ins if int(net[tbl].at[i, jcol]) in supset]
@@ -569,15 +580,14 @@ def replay(ctx, path):
         from harness import gen, drive
         net = gen.build(rp["spec"])
         for si, st in enumerate(rp["steps"]):
-            opts, undo = apply_mutation(net, st["mut"], rp["pick"] + si)
-            mode = "nonsense_mode" if st["mut"] == "bad_mode" else st["mode"]
-            out = drive.run(net, mode=mode, nonlinear_method=st["method"], use_numba=False, **opts)
-            for u in reversed(undo):
-                u()
+            mode, kw, exc, frames, runs = call_step(net, st, rp["pick"] + si)
+            cls = "ok" if exc is None else type(exc).__name__
             allnan = drive.all_results_nan(net)
-            print("step %d %s/%s -> %s converged=%s all_nan=%s" % (si, st["mut"], mode, out[0], net.converged, allnan))
-            if out[0] != "ok" and (net.converged or not allnan):
-                ctx.violation({"clause": "failed_run_leaves_no_results", "exception": out[0]},
-                              "after %s: converged=%s, tables all NaN=%s" % (out[0], net.converged, allnan), rp)
+            print("step %d %s/%s -> %s converged=%s all_nan=%s" % (si, st["mut"], mode, cls, net.converged, allnan))
+            if cls == "ok":
+                monitor_success(ctx, net, mode, runs, rp)
+            elif net.converged or not allnan:
+                ctx.violation({"clause": "failed_run_leaves_no_results", "exception": cls},
+                              "after %s: converged=%s, tables all NaN=%s" % (cls, net.converged, allnan), rp)
     else:
         ctx.note("replay file of kind %r: nothing to re-run (obligation-level finding)" % kind)
